@@ -18,7 +18,7 @@ Proof.
   intros ss H. unfold clean_done.
   assert (Hf : fetch_all ss = Some ss).
   { induction H as [|s r Hs Hr IH]; simpl; [reflexivity|]. rewrite (fetch_has_buf s Hs), IH. reflexivity. }
-  rewrite Hf. f_equal.
+  rewrite Hf. f_equal. clear Hf.
   induction H as [|s r Hs Hr IH]; simpl; [reflexivity|]. rewrite (is_done_has_buf s Hs). simpl. f_equal. exact IH.
 Qed.
 
